@@ -83,15 +83,27 @@ func runStress(in *stressInput, sink *CaseSink) {
 					continue
 				}
 				rec := open[rr.Intn(len(open))]
-				ok := rec.s.Open()
-				mu.Unlock()
-				if !ok {
-					continue
-				}
-				it := rec.s.NewIterator()
-				if it == nil {
-					rec.s.Close()
-					continue
+				// half of the scans hold no handle of their own: the iterator's reference alone must
+				// keep the snapshot alive when the writer closes its handle during the scan
+				own := rr.Intn(2) == 0
+				var it *nitro.Iterator
+				if own {
+					ok := rec.s.Open()
+					mu.Unlock()
+					if !ok {
+						continue
+					}
+					it = rec.s.NewIterator()
+					if it == nil {
+						rec.s.Close()
+						continue
+					}
+				} else {
+					it = rec.s.NewIterator()
+					mu.Unlock()
+					if it == nil {
+						continue
+					}
 				}
 				it.SetRefreshRate([]int{0, 1, 3, 50}[rr.Intn(4)])
 				var got [][]byte
@@ -99,7 +111,9 @@ func runStress(in *stressInput, sink *CaseSink) {
 					got = append(got, append([]byte(nil), it.Get()...))
 				}
 				it.Close()
-				rec.s.Close()
+				if own {
+					rec.s.Close()
+				}
 				atomic.AddInt64(&scans, 1)
 				if !sameItems(got, rec.items) && bad.Load() == nil {
 					bad.Store(fmt.Sprintf("concurrent scan of open snapshot %d returned %d items, it held %d at creation; got %q want %q", rec.s.VerifSn(), len(got), len(rec.items), got, rec.items))
